@@ -310,6 +310,9 @@ class SSet(Sym):
         T = self.T
         outer = ctx()
         x = z3.Const('setx!%d' % next(vcrt._COMP_COUNTER), T.V)
+        guard = getattr(T, 'set_element_type', None)
+        if guard is not None:           # type invariant of the set's elements (x is a fresh constant)
+            outer.assume(guard(x))
         cases = vcrt.summarize(lambda: vcrt._cond_elt(cond, elt, T.lower(x), T), outer)
         cond_t, elt_t = None, None
         for pc, (c, e) in reversed(cases):
